@@ -61,7 +61,7 @@ def _work(idx):
             for o in r['obligations']:
                 if o['status'] == 'failed' and not any(ce.get('confirmed') for ce in o.get('counterexamples', [])):
                     # bounded concrete search with the run-time contract (DESIGN 3.5)
-                    nat = xcheck.run_native([{'sidecar': c['module'], 'contract': c['name'], 'random': cfg['random_n'], 'seed': cfg['seed']}],
+                    nat = xcheck.run_native([{'sidecar': c['module'], 'contract': c['name'], 'random': cfg['random_n'], 'seed': cfg['seed'], 'moderate': c['meta'].get('search') != 'wide'}],
                                             cfg['repo_src'], cfg['verif'])[0]
                     o['random_search'] = {'tried': nat.get('tried'), 'pre_held': nat.get('pre_held'), 'failures': nat.get('failures', [])[:2]}
                     break
@@ -83,7 +83,9 @@ def _work(idx):
             r['status'] = 'failed' if 'failed' in sts else ('undecided' if 'undecided' in sts else r['status'])
         if r['status'] in ('out-of-subset', 'undecided') and not r['obligations']:
             # DESIGN 3.5: a function outside the subset (or an undecided contract) gets a bounded concrete search with the run-time contract
-            nat = xcheck.run_native([{'sidecar': c['module'], 'contract': c['name'], 'random': cfg['random_n'], 'seed': cfg['seed']}], cfg['repo_src'], cfg['verif'])[0]
+            # well-conditioned random values: the run-time oracle compares floats, and on inputs spanning many decades exact-equality
+            # clauses (KCL, Tellegen) fail by round-off on correct code (29 of 313 contracts did, on the unchanged tree)
+            nat = xcheck.run_native([{'sidecar': c['module'], 'contract': c['name'], 'random': cfg['random_n'], 'seed': cfg['seed'], 'moderate': c['meta'].get('search') != 'wide'}], cfg['repo_src'], cfg['verif'])[0]
             r['random_search'] = {'tried': nat.get('tried'), 'pre_held': nat.get('pre_held'), 'failures': nat.get('failures', [])[:2]}
         if r['status'] in ('discharged', 'failed') and cfg['xcheck_n'] > 0 and not c['meta'].get('no_xcheck'):
             r['crosscheck'] = xcheck.crosscheck(c, e.last_recs, cfg['repo_src'], cfg['verif'], r.get('pre_witness'), n=cfg['xcheck_n'], seed=cfg['seed'])
